@@ -233,7 +233,7 @@ PRECEDES = [
 
 def table_obligations(chk):
     """Both `_HANDLERS` tables (read from the source) answer the overlapping predicates in the order the subsumptions demand,
-    and they agree on that order, so a type is routed to the same kind of routine in both directions."""
+    so a type is routed to the same kind of routine in both directions."""
     import ast
     from pyvc.interp import Interp
     from pyvc.builtins_model import install
@@ -267,11 +267,8 @@ def table_obligations(chk):
             elif b in pos and not pos[a] < pos[b]:
                 bad.append(f"{a} must be answered before {b}")
         chk.add(Ob(f"{mod}._HANDLERS", "overlapping-predicates-are-answered-in-subsumption-order", "ast", [], z3.BoolVal(not bad), {"violations": bad, "order": order}))
-    (m1, o1), (m2, o2) = orders.items()
-    shared = [n for n in o1 if n in o2]
-    agree = shared == [n for n in o2 if n in o1]
-    chk.add(Ob("typelib.*.api._HANDLERS", "both-directions-answer-the-shared-predicates-in-the-same-order", "ast", [], z3.BoolVal(agree),
-               {"unmarshal": o1, "marshal": o2}))
+    # (no clause demands the same relative order of *non-overlapping* predicates in the two tables: swapping e.g. the uuid and
+    #  pattern entries is harmless and must stay green)
 
 
 def obligations(chk):          # noqa: F811  (extends the pair steps with the dispatch-table pairing)
